@@ -20,7 +20,7 @@ func Render(node Node, w io.Writer, vars map[string]any, c Config) Error {
 		return err
 	}
 	if _, err := tw.Flush(); err != nil {
-		panic(err)
+		return wrapRenderError(err, invalidLoc)
 	}
 	return nil
 }
@@ -37,7 +37,7 @@ func (c nodeContext) RenderSequence(w io.Writer, seq []Node) Error {
 		}
 	}
 	if _, err := tw.Flush(); err != nil {
-		panic(err)
+		return wrapRenderError(err, invalidLoc)
 	}
 	return nil
 }
